@@ -74,7 +74,12 @@ def select_one_or_select_many_or_infer(quantifier: Union[Type[An], Type[The], Ty
     if isinstance(entity_, (Entity, SetOf)):
         q = quantifier(entity_)
     elif isinstance(entity_, ResultQuantifier) and not properties:
-        q = entity_
+        if quantifier is The and not isinstance(entity_, The):
+            # the(T(From(d), f=v)): a predicate-form term is an `an` query already; asking for THE one quantifies its
+            # description anew instead of handing the `an` query back.
+            q = The(entity_._child_)
+        else:
+            q = entity_
     elif isinstance(entity_, CanBehaveLikeAVariable):
         q = quantifier(entity(entity_, *properties))
     elif isinstance(entity_, (list, tuple)):
